@@ -57,7 +57,8 @@ void adapter_exec(Ev *ev)
 {
     if (ev_is(ev, "@")) return;
     LengthPrefixKind k = (LengthPrefixKind)ev->a[0];
-    Sink sink = CHUNK_SINK_INIT(snk_chunk, NULL);
+    Sink sink; FlavSink fk;
+    flav_sink_init(&sink, &fk, snk_chunk, NULL, harness_flavour);
     sinkn = 0;
     if (ev_is(ev, "menc")) {
         uint64_t n = get_w64(ev->a + 1);
